@@ -1,4 +1,175 @@
-import Sigc.Basic
-/-! property theorems for C09 (stub, replaced by the real statements) -/
+import Sigc.VisitLemmas
+/-!
+  C09 — auto-disconnection reaches through every adaptor and nesting.
+
+  All statements quantify over *every* functor expression `e : FExpr` (any nesting depth, any number of
+  bound values at any position, any assignment of trackables to leaves, slots stored inside the
+  expression) and are proved by structural induction about the visitor table `codeTable` exactly as it
+  is written in `Sigc/Visit.lean` (one row per `sigc::visitor<>` specialisation).
+-/
 namespace Sigc.C09
+open Sigc.Visit
+
+/-- the rep tree of a slot made from `e` registers itself (own rep + the inner reps it owns) in exactly
+    the trackables `e` refers to by reference, with multiplicity -/
+theorem scan_perm_referenced (e : FExpr) : (E (scan codeTable e)).Perm (referenced e) := by
+  induction e with
+  | leaf => simp [scan, E_visitPrimary_own, referenced]
+  | memFun o =>
+    simp [scan, row, codeTable, Rep.seq, referenced, E_append, E_visitLimRef, E_done]
+  | makeSlot o =>
+    simp [scan, row, codeTable, Rep.seq, referenced, E_append, E_visitLimRef, E_done]
+  | signalConnect o =>
+    simp [scan, row, codeTable, Rep.seq, referenced, E_append, E_visitLimRef, E_done]
+  | bind pos f bs ih =>
+    cases pos <;>
+    · simp [scan, row, codeTable, Rep.seq, referenced, E_append, E_stored, E_visitTuple, E_done]
+      exact ih.append (List.Perm.refl _)
+  | bindReturn f b ih =>
+    simp [scan, row, codeTable, Rep.seq, referenced, E_append, E_stored, E_visitBound, E_done]
+    exact List.perm_append_comm.trans (ih.append (List.Perm.refl _))
+  | hide pos f ih =>
+    simpa [scan, row, codeTable, Rep.seq, referenced, E_append, E_stored, E_done] using ih
+  | hideReturn f ih =>
+    simpa [scan, row, codeTable, Rep.seq, referenced, E_append, E_stored, E_done] using ih
+  | retype f ih =>
+    simpa [scan, row, codeTable, Rep.seq, referenced, E_append, E_stored, E_done] using ih
+  | retypeReturn f ih =>
+    simpa [scan, row, codeTable, Rep.seq, referenced, E_append, E_stored, E_done] using ih
+  | compose1 s g ihs ihg =>
+    simp [scan, row, codeTable, Rep.seq, referenced, E_append, E_stored, E_done]
+    exact ihs.append ihg
+  | compose2 s g1 g2 ihs ih1 ih2 =>
+    simp [scan, row, codeTable, Rep.seq, referenced, E_append, E_stored, E_done]
+    exact ihs.append (ih1.append ih2)
+  | exceptionCatch f c ihf ihc =>
+    simp [scan, row, codeTable, Rep.seq, referenced, E_append, E_stored, E_done]
+    exact ihf.append ihc
+  | trackObj f ts ih =>
+    simp [scan, row, codeTable, Rep.seq, referenced, E_append, E_stored, E_visitObjs, E_done]
+    exact ih.append (List.Perm.refl _)
+  | slot f ih =>
+    simpa [scan, row, codeTable, Rep.seq, referenced, E_append, E_stored, E_done, E_kid] using ih
+
+/-- **C09.visited_eq_referenced** (general form, slots stored inside the expression included): the
+    registrations made by the slot's rep together with those of the inner reps it owns are, as a
+    multiset, the trackables the expression refers to by reference. -/
+theorem visitedAll_eq_referenced (e : FExpr) : (visitedAll e).Perm (referenced e) := by
+  have h := scan_perm_referenced e
+  have h2 : visitedAll e = E (stored codeTable e.isAdaptor (scan codeTable e)) := rfl
+  rw [h2, E_stored]; exact h
+
+/-- **C09.visited_eq_referenced**: for an expression without an inner slot, the callbacks the slot's own
+    rep registers (`visit_each_trackable(slot_do_bind(rep), functor)`) are, as a multiset, exactly the
+    trackables referred to by reference — any depth, any number of bound values at any position. -/
+theorem visited_eq_referenced (e : FExpr) (h : slotFree e = true) :
+    (visited e).Perm (referenced e) := by
+  have hk : (repOf codeTable e).noKids = true := noKids_stored _ _ (noKids_scan e h)
+  have : visited e = visitedAll e := by
+    simp [visited, visitedWith, visitedAll, visitedAllWith, Rep.regs_eq_allRegs_of_noKids _ hk]
+  rw [this]; exact visitedAll_eq_referenced e
+
+example : slotFree (.compose2 .leaf (.bind (some 1) (.memFun ⟨1, .vbase⟩) [.val, .ref ⟨2, .direct⟩, .cref ⟨1, .vbase⟩])
+    (.bindReturn (.trackObj .leaf [⟨3, .direct⟩, ⟨3, .direct⟩]) (.copy ⟨2, .direct⟩))) = true
+    ∧ visited (.compose2 .leaf (.bind (some 1) (.memFun ⟨1, .vbase⟩) [.val, .ref ⟨2, .direct⟩, .cref ⟨1, .vbase⟩])
+    (.bindReturn (.trackObj .leaf [⟨3, .direct⟩, ⟨3, .direct⟩]) (.copy ⟨2, .direct⟩))) = [1, 2, 1, 3, 3] := by
+  decide
+
+/-- for an inner slot the outer rep registers nothing; the inner rep does, and its parent is the outer -/
+example : visited (.hide none (.slot (.memFun ⟨1, .direct⟩))) = []
+    ∧ visitedAll (.hide none (.slot (.memFun ⟨1, .direct⟩))) = [1]
+    ∧ (repOf codeTable (.hide none (.slot (.memFun ⟨1, .direct⟩)))).innerCount = 1 := by decide
+
+/-- **C09.ties_all**: destroying any trackable the expression refers to invalidates a slot made from it
+    (directly, or through the parent chain of an inner slot). -/
+theorem ties_all (e : FExpr) (t : Nat) (h : t ∈ referenced e) : ties e t = true := by
+  have hp := visitedAll_eq_referenced e
+  have hm : t ∈ visitedAll e := hp.mem_iff.mpr h
+  simp only [ties]
+  rw [Rep.invalidatedBy_iff]
+  exact (mem_extIds t _).mp hm
+
+/-- converse: nothing else invalidates it (no spurious disconnection) -/
+theorem ties_only (e : FExpr) (t : Nat) (h : ties e t = true) : t ∈ referenced e := by
+  have hp := visitedAll_eq_referenced e
+  simp only [ties] at h
+  rw [Rep.invalidatedBy_iff] at h
+  exact hp.mem_iff.mp ((mem_extIds t _).mpr h)
+
+example : 2 ∈ referenced (.bind (some 0) (.slot (.bindReturn .leaf (.ref ⟨2, .vbase⟩))) [.ref ⟨1, .direct⟩, .val])
+    ∧ ties (.bind (some 0) (.slot (.bindReturn .leaf (.ref ⟨2, .vbase⟩))) [.ref ⟨1, .direct⟩, .val]) 2 = true
+    ∧ ties (.bind none .leaf [.copy ⟨1, .direct⟩]) 1 = false := by decide
+
+/-- **C09.no_trace**: a slot rep `r` that is constructed (`bindOps`: one `add` per visited target) and later
+    destroyed before its trackables (`unbindOps`: `destroy()` walks the same visitors with
+    `slot_do_unbind`, `remove_callback` erases the first live entry with that data) leaves, in every
+    registration target, no live entry of `r`, and everybody else's entries exactly as they would be had
+    `r` never existed — for every expression, under any interleaving `s` with operations `oth` of other
+    slots in the same trackables, from any starting world without entries of `r`.
+    (The inner reps of stored slots are slots made from sub-expressions, so the same statement covers
+    them; `visitor<slot>` itself registers nothing.) -/
+theorem no_trace (e : FExpr) (r : Nat) (oth s : List Op) (w : World)
+    (hoth : ∀ x ∈ oth, x.data ≠ r)
+    (hfresh : ∀ u, liveCount r (w u) = 0)
+    (hi : Interleave (bindOps r (repOf codeTable e).regs ++ unbindOps r (repOf codeTable e).regs) oth s) :
+    (∀ u, liveCount r (run w s u) = 0) ∧ (∀ u, others r (run w s u) = others r (run w oth u)) := by
+  have ha : ∀ x ∈ bindOps r (repOf codeTable e).regs ++ unbindOps r (repOf codeTable e).regs,
+      x.data = r := by
+    intro x hx
+    rcases List.mem_append.mp hx with h | h
+    · exact data_bindOps r _ x h
+    · exact data_unbindOps r _ x h
+  constructor
+  · intro u
+    rw [liveCount_interleave r hi ha hoth w w (fun _ => rfl) u, run_append,
+      liveCount_run_unbindOps, liveCount_run_bindOps, hfresh u]
+    omega
+  · exact others_interleave r hi ha hoth w w (fun _ => rfl)
+
+/-- the same for any list of targets (the statement does not depend on where the list came from) -/
+theorem no_trace_list (ts : List Tgt) (r : Nat) (oth s : List Op) (w : World)
+    (hoth : ∀ x ∈ oth, x.data ≠ r) (hfresh : ∀ u, liveCount r (w u) = 0)
+    (hi : Interleave (bindOps r ts ++ unbindOps r ts) oth s) :
+    (∀ u, liveCount r (run w s u) = 0) ∧ (∀ u, others r (run w s u) = others r (run w oth u)) := by
+  have ha : ∀ x ∈ bindOps r ts ++ unbindOps r ts, x.data = r := by
+    intro x hx
+    rcases List.mem_append.mp hx with h | h
+    · exact data_bindOps r _ x h
+    · exact data_unbindOps r _ x h
+  constructor
+  · intro u
+    rw [liveCount_interleave r hi ha hoth w w (fun _ => rfl) u, run_append,
+      liveCount_run_unbindOps, liveCount_run_bindOps, hfresh u]
+    omega
+  · exact others_interleave r hi ha hoth w w (fun _ => rfl)
+
+/-- non-vacuity: rep 7 made from `bind(mem_fun(t1), ref t1, ref t2)` (t1 registered twice), another
+    slot (rep 9) registering and unregistering in t1 in between -/
+example :
+    let e : FExpr := .bind none (.memFun ⟨1, .direct⟩) [.ref ⟨1, .direct⟩, .ref ⟨2, .direct⟩]
+    let w : World := fun u => if u = .ext 1 then [⟨9, true⟩] else []
+    (repOf codeTable e).regs = [.ext 1, .ext 1, .ext 2]
+    ∧ Interleave (bindOps 7 (repOf codeTable e).regs ++ unbindOps 7 (repOf codeTable e).regs)
+        [.add (.ext 1) 9, .remove (.ext 1) 9]
+        [.add (.ext 1) 7, .add (.ext 1) 9, .add (.ext 1) 7, .add (.ext 2) 7, .remove (.ext 1) 7,
+         .remove (.ext 1) 9, .remove (.ext 1) 7, .remove (.ext 2) 7]
+    ∧ run w [.add (.ext 1) 7, .add (.ext 1) 9, .add (.ext 1) 7, .add (.ext 2) 7, .remove (.ext 1) 7,
+         .remove (.ext 1) 9, .remove (.ext 1) 7, .remove (.ext 2) 7] (.ext 1) = [⟨9, true⟩] := by
+  refine ⟨by decide, ?_, by decide⟩
+  exact .left _ (.right _ (.left _ (.left _ (.left _ (.right _ (.left _ (.left _ .nil)))))))
+
+/-- **F1 witness**: with the table as it was before the repair (`visitor<bind_functor<I,…>>` visiting only
+    `std::get<0>(bound_)`) the first theorem is false — the second bound reference is not registered. -/
+theorem f1_witness :
+    ¬ (visitedWith unrepairedTable
+          (.bind (some 0) .leaf [.ref ⟨1, .direct⟩, .ref ⟨2, .direct⟩])).Perm
+        (referenced (.bind (some 0) .leaf [.ref ⟨1, .direct⟩, .ref ⟨2, .direct⟩])) := by
+  decide
+
+/-- and consequently destroying `t2` would not invalidate that slot -/
+theorem f1_witness_ties :
+    (repOf unrepairedTable (.bind (some 0) .leaf [.ref ⟨1, .direct⟩, .ref ⟨2, .direct⟩])).invalidatedBy 2
+      = false := by
+  decide
+
 end Sigc.C09
